@@ -400,6 +400,10 @@ func (sb *SegmentBase) InterpretVectorIndex(field string, requiresFiltering bool
 				// considered for the search
 				vectorIDsToInclude := make([]int64, 0, len(eligibleDocIDs))
 				for _, id := range eligibleDocIDs {
+					if except != nil && except.Contains(uint32(id)) {
+						// an excluded document is never eligible
+						continue
+					}
 					vecIDs := docVecIDMap[uint32(id)]
 					// In the common case where vecIDs has only one element, which occurs
 					// when a document has only one vector field, we can
@@ -452,7 +456,8 @@ func (sb *SegmentBase) InterpretVectorIndex(field string, requiresFiltering bool
 					ineligibleVectorIDs := make([]int64, 0, len(vecDocIDMap)-len(vectorIDsToInclude))
 					for docID, vecIDs := range docVecIDMap {
 						// Check if the document ID is NOT in the eligible set, marking it as ineligible.
-						if !bs.Test(uint(docID)) {
+						// Excluded documents are ineligible as well.
+						if !bs.Test(uint(docID)) || (except != nil && except.Contains(docID)) {
 							// In the common case where vecIDs has only one element, which occurs
 							// when a document has only one vector field, we can
 							// avoid the unnecessary overhead of slice unpacking (append(vecIDs...)).
